@@ -3,6 +3,7 @@ package jsonrpc
 import (
 	"context"
 	"encoding/hex"
+	"errors"
 	"fmt"
 	"net/http"
 	"strings"
@@ -42,7 +43,7 @@ func (api *API) Get(ctx context.Context, ids []da.ID, _ []byte) ([]da.Blob, erro
 	api.Logger.Debug("Making RPC call", "method", "Get", "num_ids", len(ids), "namespace", string(api.Namespace))
 	res, err := api.Internal.Get(ctx, ids, api.Namespace)
 	if err != nil {
-		if strings.Contains(err.Error(), context.Canceled.Error()) {
+		if denotes(err, context.Canceled) {
 			api.Logger.Debug("RPC call canceled due to context cancellation", "method", "Get")
 			return res, context.Canceled
 		}
@@ -69,7 +70,7 @@ func (api *API) GetIDs(ctx context.Context, height uint64, _ []byte) (*da.GetIDs
 			api.Logger.Debug("RPC call indicates height from future", "method", "GetIDs", "height", height)
 			return nil, err // Return the specific ErrHeightFromFuture
 		}
-		if strings.Contains(err.Error(), context.Canceled.Error()) {
+		if denotes(err, context.Canceled) {
 			api.Logger.Debug("RPC call canceled due to context cancellation", "method", "GetIDs")
 			return res, context.Canceled
 		}
@@ -128,11 +129,12 @@ func (api *API) Submit(ctx context.Context, blobs []da.Blob, gasPrice float64, _
 	api.Logger.Debug("Making RPC call", "method", "Submit", "num_blobs", len(blobs), "gas_price", gasPrice, "namespace", string(api.Namespace))
 	res, err := api.Internal.Submit(ctx, blobs, gasPrice, api.Namespace)
 	if err != nil {
-		if strings.Contains(err.Error(), context.Canceled.Error()) {
+		if denotes(err, context.Canceled) {
 			api.Logger.Debug("RPC call canceled due to context cancellation", "method", "Submit")
 			return res, context.Canceled
 		}
 		api.Logger.Error("RPC call failed", "method", "Submit", "error", err, "namespace", api.Namespace)
+		err = restoreKnownError(err)
 	} else {
 		api.Logger.Debug("RPC call successful", "method", "Submit", "num_ids_returned", len(res))
 	}
@@ -181,11 +183,12 @@ func (api *API) SubmitWithOptions(ctx context.Context, inputBlobs []da.Blob, gas
 	api.Logger.Debug("Making RPC call", "method", "SubmitWithOptions", "num_blobs_original", len(inputBlobs), "num_blobs_to_submit", len(blobsToSubmit), "gas_price", gasPrice, "namespace", string(api.Namespace))
 	res, err := api.Internal.SubmitWithOptions(ctx, blobsToSubmit, gasPrice, api.Namespace, options)
 	if err != nil {
-		if strings.Contains(err.Error(), context.Canceled.Error()) {
+		if denotes(err, context.Canceled) {
 			api.Logger.Debug("RPC call canceled due to context cancellation", "method", "SubmitWithOptions")
 			return res, context.Canceled
 		}
 		api.Logger.Error("RPC call failed", "method", "SubmitWithOptions", "error", err)
+		err = restoreKnownError(err)
 	} else {
 		api.Logger.Debug("RPC call successful", "method", "SubmitWithOptions", "num_ids_returned", len(res))
 	}
@@ -282,4 +285,48 @@ func moduleMap(client *Client) map[string]interface{} {
 	return map[string]interface{}{
 		"da": &client.DA.Internal,
 	}
+}
+
+// denotes reports whether err, as it came back from the RPC layer, stands for target. JSON-RPC carries
+// only the text of an error, so the text has to be the target's own or end in ": <target's text>", which
+// is what fmt.Errorf("...: %w", target) produces on the server side. A substring test is not enough:
+// "context deadline exceeded" is not da.ErrContextDeadline ("context deadline").
+func denotes(err, target error) bool {
+	if errors.Is(err, target) {
+		return true
+	}
+	msg, want := err.Error(), target.Error()
+	return msg == want || strings.HasSuffix(msg, ": "+want)
+}
+
+// remoteError keeps the message received over the wire and gives it back the identity of the
+// sentinel it denotes, so that errors.Is works on the client side as it does in process.
+type remoteError struct {
+	msg      string
+	sentinel error
+}
+
+func (e *remoteError) Error() string { return e.msg }
+func (e *remoteError) Unwrap() error { return e.sentinel }
+
+// restoreKnownError re-attaches the identity of the DA errors the node classifies with errors.Is.
+func restoreKnownError(err error) error {
+	if err == nil {
+		return nil
+	}
+	for _, known := range []error{
+		da.ErrBlobSizeOverLimit,
+		da.ErrTxTimedOut,
+		da.ErrTxAlreadyInMempool,
+		da.ErrTxIncorrectAccountSequence,
+		da.ErrContextDeadline,
+	} {
+		if errors.Is(err, known) {
+			return err
+		}
+		if denotes(err, known) {
+			return &remoteError{msg: err.Error(), sentinel: known}
+		}
+	}
+	return err
 }
